@@ -9,24 +9,33 @@ import common as C
 PROPERTIES = ["C07"]
 MANIFEST = {
     "C07": {
-        "technique": "Lean 4 proof (refinement of a reference-counted copy-on-write model of Variant to a store of values, "
-                     "by induction over operation histories; coercion and equality lemmas over all integers / all values) "
-                     "+ differential correspondence model vs real Variant.hpp vs an independent value-semantics reference",
-        "text": "Theorems over all histories of assignments, copies, swaps, typed assignments and mutable accesses (nested paths) of the "
-                "Lean model of Variant: the variables always hold exactly the values of a plain store of values (so no operation on one "
-                "variable changes another), type/value are the last assigned ones, the coercion tables hold for every integer of every "
-                "width, v == copy(v) for every NaN-free value.  The model is tied to the current Variant.hpp/Array.hpp/List.hpp/HashMap.hpp/"
-                "String.cpp on every run: identical op lines are executed by a harness built from the sources (ASan/UBSan/LSan) and by the "
-                "compiled model; getType, every to* conversion, the full nested value and the == matrix of all six variables are compared "
-                "after every op, and against a Python store of deep-copied values.",
-        "note": "Trusted: Lean kernel + the three standard axioms; hand translation of Variant.hpp into the model (validated by the "
+        "technique": "Lean 4 proof (refinement of two reference-counted copy-on-write models of Variant — variable-level sharing, "
+                     "and deep sharing of nested elements with the destructor cascade — to a store of values, by induction over "
+                     "operation histories and over access paths; coercion and equality lemmas over all integers / all values) "
+                     "+ differential correspondence model vs real Variant.hpp (values and every block's reference count) vs an "
+                     "independent value-semantics reference",
+        "text": "Theorems over all histories of assignments, copies, swaps, typed assignments and mutable accesses (nested paths of any "
+                "depth) of the Lean models of Variant: the variables always hold exactly the values of a plain store of values (so no "
+                "operation on one variable changes another), type/value are the last assigned ones, the coercion tables hold for every "
+                "integer of every width, printf numerals read back through atoi/strtoul/atoll/strtoull, v == copy(v) for every NaN-free "
+                "value; for the deep model additionally: reference count = handles in variables + handles stored in payloads, clear() "
+                "terminates and frees exactly the unreferenced blocks, a nested mutable walk clones at every shared level.  The deep "
+                "model is tied to the current Variant.hpp/Array.hpp/List.hpp/HashMap.hpp/String.cpp on every run: identical op lines are "
+                "executed by a harness built from the sources (ASan/UBSan/LSan) and by the compiled model; getType, every to* "
+                "conversion, the full nested value, the reference count of every heap block (data->ref, white box) and the == matrix of "
+                "all six variables are compared after every op, and the values against a Python store of deep-copied values.",
+        "note": "Trusted: Lean kernel + the three standard axioms; hand translation of Variant.hpp into the models (validated by the "
                 "correspondence run, not proved).  Doubles are opaque in the theorems (any semantics of ==, casts, atof, printf %f); the "
                 "driver's IEEE instance (Ieee.lean) is only tested.  libc parsers atoi/strtoul/atoll/strtoull are Lean definitions of the "
-                "glibc LP64 behaviour.  The representation model shares blocks between variables; Variants stored inside a container "
-                "payload are kept by value, so the lazy sharing of nested elements and the destructor cascade are covered by the "
-                "correspondence run (values + sanitizers) only.  Precondition of mutation through an accessor: the source is not the "
-                "variable being accessed (see finding 'self-append').",
-        "design_ref": "DESIGN.md 3/C07",
+                "glibc LP64 behaviour.  `refines` is proved for the variable-level model (elements inside payloads by value) for all "
+                "operations; `deep_refines_partial` for the deep model (what the driver runs) for all paths and all leaves except: typed "
+                "assignment of a temporary HashMap, of a temporary List/Array that contains the destination variable itself, and "
+                "construction from a temporary container (OPEN deep_refines; these are covered by the correspondence run).  The deep "
+                "model takes an element out of its slot for the time of a nested call and unlinks before it destroys (unobservable "
+                "orderings chosen for the proofs).  Precondition of mutation through an accessor: the source is not the variable being "
+                "accessed (known finding 'self-append', probed on every run).  Reference counts are compared although they are "
+                "internals: a change of the sharing policy of Variant needs the deep model to follow.",
+        "design_ref": "DESIGN.md 3/C07, docs/variant.md",
     }
 }
 PROPS = ["Nstd.Variant.Props"]
@@ -673,8 +682,8 @@ def histories_for(ctx):
     else:
         ex3 = exhaustive(4, rng, None)[len(ex):]
         rng.shuffle(ex3)
-        ex3 = ex3[:150000]
-    rnd = [gen_history(rng, rng.choice([6, 12, 25, 40])) for _ in range(2500 if quick else 40000)]
+        ex3 = ex3[:300000]
+    rnd = [gen_history(rng, rng.choice([6, 12, 25, 40])) for _ in range(2500 if quick else 120000)]
     ctx.cov["rule"] = (f"corpus ({ncorpus}) + exhaustive: all op sequences of length <= {depth} over a {len(SMALL_OPS)}-op alphabet "
                        f"(3 variables; sharing, nested access, self-assignment, get of an own element) ({len(ex)} histories) + "
                        f"{len(ex3)} sampled sequences of length {depth + 1} + {len(rnd)} random histories of 6..40 ops over 2..6 variables, "
